@@ -136,8 +136,7 @@ def run(tier, seed):
                 'cl_parser::parse: _args_[%s] uses the tested loop index' % astu.src(idx), ok,
                 None if ok else ['`_args_[%s]` advances the index and subscripts without a bound check' % astu.src(idx)])
     rep.add('ARGV.bounds', 'value-fetches', where(cp), '%d option values are fetched with the checked at()' % len(ats),
-            len(ats) + len([x for x in subs if x['args'][1].get('k') != 'Ref']) >= 10 and
-            not [x for x in subs if x['args'][1].get('k') != 'Ref'])
+            len(ats) >= 1 and not [x for x in subs if x['args'][1].get('k') != 'Ref'])
     # ---- no exit
     bad = []
     for key, fn in prog.functions.items():
